@@ -190,6 +190,12 @@ class Prov:
     def operand(self, op, bb, idx, stack=()):
         k = op['k']
         if k == 'const':
+            if 'promoted' in op and op['promoted'] < len(self.fn.promoted):
+                pf = self.fn.promoted[op['promoted']]
+                try:
+                    return prov_of(pf).return_value()
+                except Exception:
+                    return ('const', op)
             return ('const', op)
         return self.place(op['p'], bb, idx, stack)
 
